@@ -20,7 +20,7 @@ try:
     assert r.returncode == 0, r.stderr
     for c in checks:
         t0 = time.time()
-        p = subprocess.run(f"python3 {V}/check.py {c} --tier quick", shell=True, cwd=V, capture_output=True, text=True, timeout=7200,
+        p = subprocess.run(f"python3 {V}/check.py {c} --tier quick", shell=True, cwd=V, capture_output=True, text=True, errors="replace", timeout=7200,
                            env=dict(os.environ, COVFIE_REPO=str(wt)))
         lines = [l for l in p.stdout.splitlines() if l.startswith("VIOLATION") or l.startswith("  ")]
         res["checks"][c] = {"exit": p.returncode, "wall_s": round(time.time() - t0), "lines": lines[:6]}
